@@ -1,1 +1,24 @@
-fn main() {}
+//! Group "rrdp": C25 (RRDP updates reproduce the server state) and C24
+//! (crash safety of RRDP updates).
+mod world;
+mod gen;
+mod c25;
+mod c24;
+
+fn run(name: &str, ctx: &mut rvcore::Ctx) -> bool {
+    match name {
+        "c25" => c25::run_c25(ctx),
+        "c24" => c24::run_c24(ctx),
+        _ => return false
+    }
+    true
+}
+
+fn special(name: &str, args: &[String]) -> Option<i32> {
+    match name {
+        "rrdp-child" => Some(c24::child_main(args)),
+        _ => None
+    }
+}
+
+fn main() { rvcore::main_with(run, special) }
